@@ -123,7 +123,6 @@ Qed.
 
 Example rpy_dom_inhabited : rpy_dom (3/10) (-1/2) (6/5) /\ rpy_dom PI (7/5) (-3).
 Proof.
-  pose proof PI_RGT_0. assert (3 < PI) by (pose proof PI_4; pose proof (PI2_3_2); unfold PI2 in *; lra) || idtac.
-  unfold rpy_dom. pose proof PI2_3_2 as H32. pose proof PI_4 as H4. unfold PI2 in H32.
+  pose proof PI_RGT_0. unfold rpy_dom. pose proof PI2_3_2 as H32. pose proof PI_4 as H4. unfold PI2 in H32.
   repeat split; lra.
 Qed.
